@@ -122,6 +122,9 @@ def gen(seed, tier):
                 b['parked'] = r.choice(('begin', 'stores', 'vote'))
             elif y < 0.5:
                 b['cut'] = r.random()
+            elif y < 0.6:
+                # the backup process is killed while it reads / copies
+                b['dies'] = r.random()
             ops.append(b)
         else:
             ops.append({'op': 'clockstep', 's': r.choice((1, 2, 61, 3600))})
@@ -133,6 +136,11 @@ def gen(seed, tier):
 
 def date_str(t):
     return '%04d-%02d-%02d-%02d-%02d-%02d' % _time.gmtime(t)[:6]
+
+
+class Killed(BaseException):
+    """The repozo process is killed (not an Exception: nothing in repozo
+    may handle it)."""
 
 
 class Repo:
@@ -149,6 +157,7 @@ class Repo:
         self.viol = []
         self.evals = 0
         self.backups = []       # dict(date, bytes, model, opts)
+        self.die_after = None
         self.trace = []
 
     def flag(self, o, x):
@@ -160,17 +169,71 @@ class Repo:
         self.evals += 1
         out = io.StringIO()
         rz.READCHUNK = self.case['chunk']
+        real_dofile = rz.dofile
+        if self.die_after is not None:
+            left = [self.die_after]
+
+            def dofile(func, fp, n=None):
+                def func2(data):
+                    if left[0] < len(data):
+                        func(data[:left[0]])
+                        raise Killed()
+                    left[0] -= len(data)
+                    func(data)
+                return real_dofile(func2, fp, n)
+            rz.dofile = dofile
         try:
             with contextlib.redirect_stdout(out), \
                     contextlib.redirect_stderr(out):
                 rz.main(argv)
             return ('ok', None)
+        except Killed as e:
+            self.reap(e.__traceback__)
+            return ('killed', None)
         except SystemExit as e:
             if e.code in (0, None):
                 return ('ok', None)
             return ('exit', str(e.code)[:120])
         except Exception as e:      # noqa: B902
             return ('raised', '%s: %s' % (type(e).__name__, str(e)[:120]))
+        finally:
+            rz.dofile = real_dofile
+
+    def reap(self, tb):
+        """The killed process's open files: what their buffers hold is
+        lost, nothing is written any more (a file object that lives on in
+        this process would flush into its file later -- possibly after the
+        next backup renamed it into place)."""
+        import gzip
+        files = []
+        while tb is not None:
+            for v in list(tb.tb_frame.f_locals.values()):
+                if isinstance(v, gzip.GzipFile):
+                    files.extend([v, v.fileobj, v.myfileobj])
+                elif isinstance(v, io.IOBase) or hasattr(v, 'fileno'):
+                    files.append(v)
+            tb = tb.tb_next
+        devnull = os.open(os.devnull, os.O_RDWR)
+        try:
+            for f in files:
+                try:
+                    fd = f.fileno()
+                except Exception:       # noqa: B902
+                    continue
+                if isinstance(fd, int) and fd not in self.sim.fs.fds \
+                        and fd > 2 and not getattr(f, 'closed', False) \
+                        and type(f).__module__ in ('_io', 'io', 'gzip'):
+                    try:
+                        os.dup2(devnull, fd)
+                    except OSError:
+                        pass
+            for f in files:
+                try:
+                    f.close()
+                except Exception:       # noqa: B902
+                    pass
+        finally:
+            os.close(devnull)
 
     # -- backup -----------------------------------------------------------
 
@@ -230,11 +293,23 @@ class Repo:
                 argv.append(flag_)
         date = date_str(sim.clock.now)
         before = set(os.listdir(self.repo))
-        res = self.repozo(argv)
+        if 'dies' in op:
+            # (an incremental backup reads the file twice: checksum, copy)
+            self.die_after = int(op['dies'] * 2 * len(committed))
+        try:
+            res = self.repozo(argv)
+        finally:
+            self.die_after = None
         if restore is not None:
             fs.names[SRC].data[:] = restore
         if parked is not None:
             st.tpc_abort(parked)
+        if res[0] == 'killed':
+            # nothing of this backup counts: recover and verify go on
+            # answering from the backups completed before
+            self.trace.append('backup-killed:')
+            sim.clock.advance(1.5)
+            return
         if res[0] != 'ok':
             self.flag('backup-fails', 'backup %r: %s %s' % (argv[4:],
                                                            res[0], res[1]))
